@@ -123,6 +123,16 @@ def edits(rng, j, tag):
     pw = ann_idx(j, CLASSES['pow'])
     for n in [0, 1, (1 << 64) - 1, 1 << 64, (1 << 64) + 5]:
         out.append(E(f'nonce={n}', lambda k, n=n: k['annotations'].__setitem__(pw[0], re.sub(r'Data\(0x[0-9a-f]+\)', f'Data({hex(n)})', k['annotations'][pw[0]])), 'err' if n >= 1 << 64 else 'ok'))
+    # segments whose ADDRESSES are not monotone in builtin order (the file keys them by name: the verifier must get each builtin's own entry
+    # at its builtin position, whatever the addresses are)
+    def seg_swap(k):
+        ms = k['public_input']['memory_segments']; names = [n for n in ms if n not in ('program', 'execution', 'output')]
+        a, b = names[0], names[-1]; ms[a], ms[b] = ms[b], ms[a]
+    out.append(E('segments-two-builtins-exchanged', seg_swap, 'ok'))
+    def seg_low(k):
+        ms = k['public_input']['memory_segments']; names = [n for n in ms if n not in ('program', 'execution', 'output')]
+        ms[names[-1]] = {'begin_addr': 3, 'stop_ptr': 3}
+    out.append(E('segment-last-builtin-at-low-address', seg_low, 'ok'))
     out.append(E('segment-unknown', lambda k: k['public_input']['memory_segments'].__setitem__('frobnicate', {'begin_addr': 1, 'stop_ptr': 2}), 'err'))
     out.append(E('segment-missing', lambda k: k['public_input']['memory_segments'].pop('output'), 'ok'))
     out.append(E('memory-badhex', lambda k: k['public_input']['public_memory'][3].__setitem__('value', '0xzz'), 'err'))
